@@ -545,16 +545,22 @@ func c03prop(ev *evid.Rec) func(rt *rapid.T) {
 						in = append(in, lv)
 					}
 				}
-				if len(in) >= 2 {
-					if us, err := sentinel.UserList(); err == nil {
-						for _, u := range us {
-							if strings.HasPrefix(string(u.Name), "h") && u.ID != 1 {
-								in[0].c.Send(hlref.Tran{Type: hlref.TranDisconnectUser, ID: 0x6b69636b, Fields: []hlref.Field{fld(hlref.FUserID, hlref.BE16(u.ID))}}.Encode())
-								break
+				if len(in) >= 1 {
+					// (the hostile account itself cannot be disconnected - it holds every privilege but two; the one it turns on is
+					// a user of the account without privileges, who logs in for the occasion)
+					tgt := w.Connect("10.3.8.1:1")
+					if tgt.Login(hlsim.LoginOpts{Login: "spare", Password: "spw", Name: []byte("kick-me"), Icon: 1}) != nil {
+						if us, err := sentinel.UserList(); err == nil {
+							for _, u := range us {
+								if string(u.Name) == "kick-me" {
+									in[0].c.Send(hlref.Tran{Type: hlref.TranDisconnectUser, ID: 0x6b69636b, Fields: []hlref.Field{fld(hlref.FUserID, hlref.BE16(u.ID))}}.Encode())
+								}
 							}
+							settle(3 * time.Second)
 						}
-						settle(3 * time.Second)
 					}
+					tgt.Close()
+					settle(time.Second)
 				}
 			}
 			// a well-behaved client reacts to what it is sent: a hostile user invites it to a private chat and leaves that chat
